@@ -20,7 +20,7 @@ from ..hdl.harness import run_configs
 PROP = "C18"
 LEVEL = "other"
 CLAUSES = ["pair_exact", "history_exact", "refusal_atomic", "paths_distinct", "name_validation"]
-PARTS = ["a", "b", "0", 0, 1]
+PARTS = ["ab", "ba", "300", 300, 301]     # multi-character strings and ints beyond CPython's small-int cache: every use builds a NEW object
 
 
 def all_names(maxlen=3):
@@ -52,7 +52,8 @@ def related(a, b):
 
 
 def mk(n):
-    return tuple(PARTS[i] for i in n)
+    # equal values, fresh objects on every call (names are compared by value, never by identity)
+    return tuple(int(str(PARTS[i])) if isinstance(PARTS[i], int) else "".join(list(PARTS[i])) for i in n)
 
 
 def spell(name, rng):
@@ -60,6 +61,9 @@ def spell(name, rng):
     from amaranth_soc.memory import MemoryMap
     if name is None:
         return None
+    # every part is a FRESH object with an equal value (names compare by value: a string built at run time, an int computed at run time)
+    fresh = lambda p_: int(str(p_)) + 0 if isinstance(p_, int) else "".join([c for c in p_] + [""])
+    name = tuple(fresh(p_) for p_ in name)
     r = rng.random()
     if r < 0.25 and len(name) == 1 and isinstance(name[0], str):
         return name[0]
